@@ -19,12 +19,164 @@ class Lib(Builtins):
                 key = f'{cls}.{f}'
                 p.heap[key] = z3.Const(fresh_name('H_' + f), z3.ArraySort(z3.IntSort(), sort_of(t)))
         p.ghost['alloc'] = VInt(z3.Int(fresh_name('alloc')))
+        from .contracts import GHOSTS
+        for g, t in GHOSTS.items():
+            p.ghost[g] = fresh(t, 'ghost_' + g)
 
     def type_assumptions(self, ex, p):
-        return
+        """every reference parameter is a live object: 0 <= ref < alloc"""
+        al = p.ghost['alloc'].z
+        for v in p.env.values():
+            if isinstance(v, VRef):
+                p.add(z3.And(0 <= v.z, v.z < al))
+
+    # ------------------------------------------------------------------------------------------
+    # Boogie-style heap: one array per field; allocation, havoc of a callee's modifies clause, frame
+    def allocate(self, ex, cls, p):
+        al = p.ghost['alloc']
+        r = VRef(cls, al.z)
+        p.ghost['alloc'] = VInt(al.z + 1)
+        fresh_objs = list(p.ghost.get('__fresh__', []))
+        fresh_objs.append(al.z)
+        p.ghost['__fresh__'] = fresh_objs
+        return r
+
+    def parse_modifies(self, ex, entry, ctx):
+        """'self.state' / 'self.*' / 'self.new_ike_sa.*' / 'ghost:trace' ->
+        ('ghost', name) or ('heap', cls, ref term, guard, [fields])"""
+        if entry.startswith('ghost:'):
+            return ('ghost', entry[6:])
+        objsrc, _, fld = entry.rpartition('.')
+        obj = ex.spec.ev(ast.parse(objsrc, mode='eval').body, ctx)
+        guard = z3.BoolVal(True)
+        if isinstance(obj, VOpt):
+            guard = z3.Not(obj.isnone)
+            obj = obj.val
+        if not isinstance(obj, VRef):
+            raise VError(f'modifies entry {entry}: {objsrc} is not a heap object')
+        hc = HEAPCLASSES[obj.cls]
+        fields = list(hc.fields) if fld == '*' else [fld]
+        for f in fields:
+            if f not in hc.fields:
+                raise VError(f'modifies entry {entry}: no field {f}')
+        return ('heap', obj.cls, obj.z, guard, fields)
+
+    def havoc_modifies(self, ex, c, env, p, exceptional):
+        from .contracts import GHOSTS
+        ctx = ex.ctx(p, env)
+        ctx.old_env, ctx.old_heap = env, dict(p.heap)
+        parsed = [self.parse_modifies(ex, m, ctx) for m in c.modifies]
+        for m in parsed:
+            if m[0] == 'ghost':
+                p.ghost[m[1]] = fresh(GHOSTS[m[1]], 'ghost_' + m[1])
+                continue
+            _, cls, ref, guard, fields = m
+            for f in fields:
+                key = f'{cls}.{f}'
+                t = HEAPCLASSES[cls].fields[f]
+                nv = z3.Const(fresh_name('hv_' + f), sort_of(t))
+                stored = z3.Store(p.heap[key], ref, nv)
+                p.heap[key] = stored if z3.is_true(z3.simplify(guard)) else z3.If(guard, stored, p.heap[key])
+        if getattr(c, 'allocates', False):
+            # the callee may allocate: the allocation counter does not decrease
+            al = p.ghost['alloc']
+            na = z3.Int(fresh_name('alloc'))
+            p.add(na >= al.z)
+            p.ghost['alloc'] = VInt(na)
 
     def frame_obligations(self, ex, p, c, fshort, exceptional):
-        return
+        """every heap location that differs from the entry state is covered by the modifies clause
+        (objects allocated by this call are free to change); skipped when the contract states no frame"""
+        if c.modifies is None or getattr(c, 'no_frame', False):
+            return
+        entry = ex.entry
+        ectx = ex.ctx(entry, entry.env)
+        parsed = [self.parse_modifies(ex, m, ectx) for m in c.modifies]
+        al0 = entry.ghost['alloc'].z
+        from .contracts import GHOSTS
+        allowed_ghosts = {m[1] for m in parsed if m[0] == 'ghost'}
+        goals = []
+        for g in GHOSTS:
+            if g in allowed_ghosts:
+                continue
+            a, b = p.ghost.get(g), entry.ghost.get(g)
+            if a is b:
+                continue
+            goals.append(same(a, b))
+        r = z3.Int(fresh_name('fr'))        # one arbitrary pre-existing reference for all fields
+        for key, arr in p.heap.items():
+            old = entry.heap[key]
+            if arr is old or arr.eq(old):
+                continue
+            cls, f = key.rsplit('.', 1)
+            excl = [z3.BoolVal(False)]
+            for m in parsed:
+                if m[0] == 'heap' and m[1] == cls and f in m[4]:
+                    excl.append(z3.And(m[3], r == m[2]))
+            goals.append(z3.Implies(z3.And(0 <= r, r < al0, z3.Not(z3.Or(excl))),
+                                    z3.Select(arr, r) == z3.Select(old, r)))
+        if goals:
+            # one obligation per path: everything outside the modifies clause has its entry value
+            ex.oblige(p, z3.And(goals), f'{fshort}/frame', c.props, 'frame')
+
+    def havoc_loop_heap(self, ex, s, h):
+        """heap fields stored to in a loop body are havocked at the loop head (the invariant says what is kept)"""
+        if ex.module not in ('ikesa', 'ikesacontroller', 'xfrm'):
+            return      # message.py / crypto.py / configuration.py / netlink.py hold no heap objects
+        fields = set()
+        for n in ast.walk(s):
+            if isinstance(n, (ast.Assign, ast.AugAssign)):
+                tgts = n.targets if isinstance(n, ast.Assign) else [n.target]
+                for t in tgts:
+                    if isinstance(t, ast.Attribute):
+                        fields.add(t.attr)
+            if isinstance(n, ast.Call):
+                # a call inside the loop may modify the heap through its contract: havoc everything
+                fields.add('*')
+        if not fields:
+            return
+        # loop frame: locations that existed at function entry and are outside the function's modifies
+        # clause still hold their entry values at the loop head (assumed here, re-checked at every back
+        # edge by loop_frame_obligations and at every exit by frame_obligations)
+        c = ex.func_contract()
+        entry = ex.entry
+        parsed = []
+        if c is not None and entry is not None and c.modifies:
+            ectx = ex.ctx(entry, entry.env)
+            parsed = [self.parse_modifies(ex, m, ectx) for m in c.modifies]
+        al0 = entry.ghost['alloc'].z if entry is not None else None
+        r = z3.Int(fresh_name('lf'))
+        kept = []
+        for key in list(h.heap):
+            cls, f = key.rsplit('.', 1)
+            if '*' in fields or f in fields:
+                new = z3.Const(fresh_name('Hl_' + f), h.heap[key].sort())
+                if entry is not None:
+                    excl = [z3.BoolVal(False)]
+                    for m in parsed:
+                        if m[0] == 'heap' and m[1] == cls and f in m[4]:
+                            excl.append(z3.And(m[3], r == m[2]))
+                    if len(excl) == 1:
+                        # no location of this field may change at all: the array itself is kept
+                        new = entry.heap[key] if h.heap[key].eq(entry.heap[key]) else new
+                        if not new.eq(entry.heap[key]):
+                            kept.append(z3.Implies(z3.And(0 <= r, r < al0),
+                                                   z3.Select(new, r) == z3.Select(entry.heap[key], r)))
+                    else:
+                        kept.append(z3.Implies(z3.And(0 <= r, r < al0, z3.Not(z3.Or(excl))),
+                                               z3.Select(new, r) == z3.Select(entry.heap[key], r)))
+                h.heap[key] = new
+        if kept:
+            h.add(z3.ForAll([r], z3.And(kept)))
+        if '*' in fields:
+            from .contracts import GHOSTS
+            allowed_ghosts = {m[1] for m in parsed if m[0] == 'ghost'}
+            for g, t in GHOSTS.items():
+                if g in allowed_ghosts or entry is None:
+                    h.ghost[g] = fresh(t, 'ghost_' + g)
+            al = z3.Int(fresh_name('alloc'))
+            h.add(al >= h.ghost['alloc'].z)
+            h.ghost['alloc'] = VInt(al)
 
     # ------------------------------------------------------------------------------------------
     # ipaddress: IPAddr(version in {4,6}, value) and IPNet(version, base, prefixlen)
@@ -396,6 +548,28 @@ def _spec_call(self, sp, name, args, ctx):
         return VBytes(fn_aes_enc(args[0].z, args[1].z, args[2].z))
     if name == 'aes_dec':
         return VBytes(fn_aes_dec(args[0].z, args[1].z, args[2].z))
+    if name == 'fresh_ref':
+        # the object was allocated after the entry state of this contract (old)
+        return VBool(args[0].z >= ctx.old_ghost['alloc'].z)
+    if name == 'live_ref':
+        return VBool(z3.And(0 <= args[0].z, args[0].z < ctx.ghost['alloc'].z))
+    if name == 'unchanged':
+        # unchanged(obj): every field of the heap object has its entry value
+        o = args[0]
+        conj = []
+        for f in HEAPCLASSES[o.cls].fields:
+            key = f'{o.cls}.{f}'
+            conj.append(z3.Select(ctx.heap[key], o.z) == z3.Select(ctx.old_heap[key], o.z))
+        return VBool(z3.And(conj))
+    if name == 'nothing_changed':
+        # no heap location and no ghost variable differs from the entry state
+        from .contracts import GHOSTS
+        conj = [ctx.heap[k] == ctx.old_heap[k] for k in ctx.heap if not ctx.heap[k].eq(ctx.old_heap[k])]
+        for g in GHOSTS:
+            a, b = ctx.ghost.get(g), ctx.old_ghost.get(g)
+            if a is not None and b is not None and a is not b:
+                conj.append(same(a, b))
+        return VBool(z3.And(conj) if conj else z3.BoolVal(True))
     if name == 'as_payload':
         t = TRec('Payload')
         return from_z3(to_z3(args[0], t), t)
